@@ -22,7 +22,7 @@ import (
 	"verif/sim/runner"
 
 	_ "verif/engines/osmsim"
-	_ "verif/engines/projh"
+	"verif/engines/projh"
 	_ "verif/engines/routeh"
 	_ "verif/engines/rtreeh"
 	_ "verif/engines/storeh"
@@ -140,6 +140,14 @@ func main() {
 			}
 		}
 		os.Exit(runner.Worker(o))
+	case "c10-table":
+		fs := flag.NewFlagSet("c10-table", flag.ExitOnError)
+		ord := fs.String("order", "fwd", "")
+		fs.Parse(os.Args[2:])
+		for _, l := range projh.TableLines(*ord == "rev") {
+			fmt.Println(l)
+		}
+		os.Exit(0)
 	case "exec-tape":
 		// internal: execute a tape (JSON array of values) once; exit 0 = no
 		// violation, 1 = violation, anything else = the process died
